@@ -150,6 +150,17 @@ def work(ctx, tier):
             sc["cfg"]["no_retry"] = True
         if k % 5 == 0:
             sc["fault"] = {"kind": "hook", "hook": rng.choice(["metric", "log", "before_sleep"]), "at": rng.choice([0, 1, 2, "always"]), "exc": rng.choice(HOOK_EXCS)}
+            if k % 15 == 0 and sc["fault"]["hook"] != "before_sleep":
+                # an interrupt (Ctrl-C) arriving inside an observability hook at its i-th invocation - the first one may be the breaker's
+                # admission event: every entry point must leave the same trail (same breaker interactions, same delivery of the interrupt)
+                sc["fault"]["exc"] = "kbd"
+                sc["fault"]["at"] = rng.choice([0, 0, 1, 2])
+                ctx.inc("scenarios_with_an_interrupt_inside_a_hook")
+                if sc["cfg"].get("breaker"):
+                    br = sc["cfg"]["breaker"]
+                    br["trip_on"] = ["TRANSIENT"]
+                    br["class_thresholds"] = {}
+                    br["pre"] = [["fail", "TRANSIENT"]] * br["threshold"] + [["adv", br["recovery"] + gen.G]]  # the first event of the call is its admission as the probe
         elif k % 5 == 1:
             # "the same behaviour of ... callbacks" includes a caller callback that raises at its i-th invocation; only callbacks
             # whose invocation counts the property itself lists (strategy calls, sleeps, handler consultations) are used
@@ -197,6 +208,7 @@ def work(ctx, tier):
 
 def conclude(ctx):
     floors = {"pairs_compared": (ctx.cnt["pairs_compared"], 5000)}
+    floors["scenarios_with_an_interrupt_inside_a_hook"] = (ctx.cnt["scenarios_with_an_interrupt_inside_a_hook"], 30)
     floors["scenarios_with_raising_attempt_hook_across_deliveries"] = (ctx.cnt["scenarios_with_raising_attempt_hook_across_deliveries"], 40)
     floors["hung_attempt_twin_comparisons"] = (ctx.cnt["hung_attempt_twin_comparisons"], 6)
     floors["scenarios_with_raising_attempt_hook_same_delivery"] = (ctx.cnt["scenarios_with_raising_attempt_hook_same_delivery"], 100)
